@@ -15,6 +15,7 @@ PARSER_PREFIX = ("nervusdb_query::parser::", "nervusdb_query::parser_helper_exis
 def run(ctx):
     F = ctx.facts
     ctx.rule("C16.1", "every recursion cycle of the parser passes a depth guard")
+    ctx.rule("C16.3", "byte-offset slicing of a user-supplied string (`&s[a..b]` with constant / length-derived bounds) is dominated by an ASCII or char-boundary check")
     ctx.rule("C16.2", "no unwrap/expect on a Result carrying one of the repository's error types in product code (an error must be returned, not turned into a panic)")
     nodes = sorted(i for i in F.bodies if i.startswith(PARSER_PREFIX) and "::tests::" not in i)
     ctx.floor("C16.1", "parser bodies", len(nodes), 60)
@@ -83,3 +84,78 @@ def run(ctx):
     ctx.floor("C16.2", "Result combinator sites inspected", n_res, 100)
     ctx.obligations += n_res
     ctx.discharged += n_res
+
+    # ---- clause 3 ---------------------------------------------------------
+    # `&s[a..b]` on a str panics when a or b is not a char boundary.  Decided class: slices whose bounds are all
+    # *constants* (`s[0..4]`, `s[5..7]`, `s[1..]`): the offset is a boundary only if the bytes before it are ASCII, so the
+    # slice must be dominated by an ASCII check of the same string.  Bounds computed by a search (find / rfind / split) or a
+    # byte scanner are listed as instances but not decided (they need value reasoning about the scanner).
+    from ..mirutil import peel_refs
+    n3 = nconst = 0
+
+    def sroot(b, l):
+        return peel_refs(b, l) if l is not None else None
+
+    def closure_calls_ascii(b, l):
+        o = b.origin(l) if l is not None else None
+        if not (o and o[0] == "agg" and o[1][1] == "closure"):
+            return False
+        cb = F.bodies.get(o[1][2])
+        return bool(cb) and any("::is_ascii" in x.name for x in cb.calls())
+
+    for i, b in sorted(F.bodies.items()):
+        if not i.startswith("nervusdb_query::") or "::tests::" in i:
+            continue
+        sites = [c for c in b.calls() if "for str>::index" in c.name]
+        if not sites:
+            continue
+        k = 0
+        for c in sorted(sites, key=lambda c: (c.line, c.bb)):
+            n3 += 1
+            rl = op_local(c.args[1]) if len(c.args) > 1 else None
+            o = b.origin(rl) if rl is not None else None
+            consts = None
+            if o and o[0] == "agg" and all(x[0] == "k" for x in o[1][4]):
+                consts = [x[1].get("v") for x in o[1][4]]
+            if not consts or all(v in (0, None) for v in consts):
+                ctx.instance("C16.3", "%s: str slice #%d — bounds not constant (search / scanner derived): listed, not decided" % (i, k))
+                k += 1
+                continue
+            nconst += 1
+            sr = sroot(b, op_local(c.args[0]))
+            guard = None
+            for g in b.calls():
+                if g.bb == c.bb or not b.dominates(g.bb, c.bb):
+                    continue
+                short = g.name.split("::")[-1]
+                gr = None
+                if short in ("is_ascii", "is_char_boundary"):
+                    gr = sroot(b, op_local(g.args[0]))
+                    go = b.origin(gr) if gr is not None else None
+                    if go and go[0] == "call" and go[1].name.endswith("::as_bytes"):
+                        gr = sroot(b, op_local(go[1].args[0]))
+                elif short == "all" and len(g.args) > 1 and closure_calls_ascii(b, op_local(g.args[1])):
+                    it = b.origin(op_local(g.args[0]))
+                    it_l = op_local(g.args[0])
+                    it_l = peel_refs(b, it_l)
+                    io = b.origin(it_l) if it_l is not None else None
+                    if io and io[0] == "call" and io[1].name.split("::")[-1] in ("chars", "bytes"):
+                        gr = sroot(b, op_local(io[1].args[0]))
+                    else:
+                        continue
+                elif short == "starts_with" and len(g.args) > 1 and g.args[1][0] == "k" and g.args[1][1].get("ty") == "char" \
+                        and (g.args[1][1].get("v") or 999) < 128 and all(v in (0, 1, None) for v in consts):
+                    gr = sroot(b, op_local(g.args[0]))
+                else:
+                    continue
+                if gr is None or sr is None or gr == sr:
+                    guard = g
+                    break
+            ctx.instance("C16.3", "%s: str slice #%d constant bounds %s — ASCII guard: %s" % (i, k, consts, guard.name.split("::")[-1] + "@" + guard.loc() if guard else "NONE"))
+            ctx.oblige(guard is not None, "C16.3", "%s:str-slice#%d" % (b.root or i, k),
+                       "a user-supplied string is sliced at constant byte offsets %s without a dominating ASCII check of that string: "
+                       "a multi-byte character straddling the offset makes the slice panic and takes the host down" % consts, c.loc(),
+                       sample={"fn": i, "site": c.loc()})
+            k += 1
+    ctx.floor("C16.3", "str slicing sites in the query crate", n3, 30)
+    ctx.floor("C16.3", "constant-bounded str slices", nconst, 15)
